@@ -3208,7 +3208,8 @@ class EntityFixup(MutableMapping[str, str]):
 
     def copy_values(self) -> list[FixupValue]:
         """Generate a list that can be passed to the constructor."""
-        return list(self._fixup.values())
+        # New FixupValue objects: the constructor stores them as is, and they are modified in place on assignment.
+        return [FixupValue(fix.var, fix.value, fix.id) for fix in self._fixup.values()]
 
     def __copy__(self) -> 'EntityFixup':
         fix = EntityFixup.__new__(EntityFixup)
